@@ -19,8 +19,14 @@ QUICK_MODELS = [
     ("avg", dict(MaxSamples=2, MaxFun=4)),
     ("small_inf", dict(Small=0, MaxFun=5, WithInf=True)),
     ("soft_unsucc1", dict(UseRestarts=True, MaxUnsucc=1, MaxFun=4, WithInf=True)),
+    ("noise_soft", dict(WithNoise=True, UseRestarts=True, MaxFun=4)),
+    ("regress", dict(RegSteps=1, MaxFun=5, NPT=3)),
 ]
 THOROUGH_MODELS = [
+    ("noise_soft5", dict(WithNoise=True, UseRestarts=True, MaxFun=5)),
+    ("noise_hard", dict(WithNoise=True, UseRestarts=True, SoftRestarts=False, MaxFun=5)),
+    ("regress6", dict(RegSteps=1, MaxFun=6, NPT=3)),
+    ("regress2_soft", dict(RegSteps=2, MaxFun=5, NPT=3, UseRestarts=True)),
     ("base6", dict(MaxFun=7)),
     ("soft6", dict(UseRestarts=True, MaxFun=6)),
     ("soft6_nomove", dict(UseRestarts=True, MaxFun=6, MoveXk=False, NumGeom=2, NPT=3)),
